@@ -181,6 +181,9 @@ func (v *Voucher) DevicePublicKey() (crypto.PublicKey, error) {
 	if len(*v.CertChain) == 0 {
 		return nil, errors.New("empty cert chain")
 	}
+	if (*v.CertChain)[0] == nil {
+		return nil, errors.New("cert chain contains a nil certificate")
+	}
 	return (*v.CertChain)[0].PublicKey, nil
 }
 
@@ -210,6 +213,9 @@ func (v *Voucher) VerifyDeviceCertChain(roots *x509.CertPool) error {
 	}
 	chain := make([]*x509.Certificate, len(*v.CertChain))
 	for i, cert := range *v.CertChain {
+		if cert == nil {
+			return errors.New("cert chain contains a nil certificate")
+		}
 		chain[i] = (*x509.Certificate)(cert)
 	}
 	return verifyCertChain(chain, roots)
@@ -232,6 +238,9 @@ func (v *Voucher) VerifyCertChainHash() error {
 		return fmt.Errorf("error computing hash: %w", err)
 	}
 	for _, cert := range *v.CertChain {
+		if cert == nil {
+			return errors.New("cert chain contains a nil certificate")
+		}
 		if _, err := digest.Write(cert.Raw); err != nil {
 			return fmt.Errorf("error computing hash: %w", err)
 		}
@@ -491,7 +500,10 @@ func ExtendVoucher[T protocol.PublicKeyOrChain](v *Voucher, owner crypto.Signer,
 	}
 
 	// Select the appropriate hash algorithm
-	devicePubKey := (*v.CertChain)[0].PublicKey
+	devicePubKey, err := v.DevicePublicKey()
+	if err != nil {
+		return nil, fmt.Errorf("error getting device public key of voucher to extend: %w", err)
+	}
 	alg, err := hashAlgFor(devicePubKey, ownerPubKey)
 	if err != nil {
 		return nil, fmt.Errorf("error selecting the appropriate hash algorithm: %w", err)
